@@ -13,6 +13,9 @@ CHECKS = {
  "C09": dict(cat="exploration", engine="E3-enumeration", tech=TECH_ENUM,
    text="every chain of condition-free calls up to length 2-4 x every update/delete finisher x plain/soft-delete model x AllowGlobalUpdate modes is executed on SQLite behind a recording driver; oracle = error identity + empty driver log + cell-level table diff; the positive half inserts each of 16 real conditions at every position",
    note="SQLite dialect; alphabets of DESIGN.md §3 C09; recording driver wraps mattn/go-sqlite3"),
+ "C13": dict(cat="fault_enumeration", engine="E1-choice-tree", tech=TECH_FAULT,
+   text="2661 programs (9 operations x 6 argument shapes of length 0-3 x child configurations by value/pointer x hooks/SkipHooks/UpdateColumn x own/caller transaction) are executed on SQLite with every hook invocation a choice point; every single hook failure (quick) and every pair (thorough) is enumerated; oracle: per-record hook multiset and order relative to the statement in the driver log, hooks run inside the operation's transaction (driver-level BEGIN window), failing hook => error returned, no later phase, all tables incl. the hooks' own marker writes equal the pre-state, SetColumn values are the values stored",
+   note="SQLite dialect; hook logging through a Logger wrapper; assumptions listed in evidence; Save of a non-zero non-existing key, CreateInBatches and SkipDefaultTransaction are outside the alphabet"),
  "C14": dict(cat="model_checking", engine="E2-scheduler", tech=TECH_SCHED,
    text="the real prepare_stmt.go/gorm.go (instrumented at build time by overlay: sync -> scheduling shim, go/channel statements hooked) is explored under a cooperative scheduler: every interleaving of 2 threads (<=2-3 preemptions quick, <=4 thorough), 3 threads (<=2/3) and 4 threads (<=2, thorough) of Exec/Query/Transaction/Reset/Close/first-use-Session programs, with Prepare failures and ErrBadConn as environment choices; oracle per schedule: no deadlock/panic, results equal the sequential run, <=1 cache-level prepare per text and generation, no leaked driver statement after the final Close",
    note="database/sql and the fake driver are atomic steps; statement.go's per-statement sync.Map is not a scheduling point; data races are not decided by this check (see C07)"),
